@@ -128,12 +128,34 @@ def valid(c):
             nums.append(dec(m["zero"]))
         if m["zk"] in ("float", "negzero") and not floaty:
             return False
+    for k in c.get("ctls", {}).values():
+        if k["init"] is not None and not isinstance(k["init"], list):
+            nums.append(dec(k["init"]))
+        if k.get("vk") in ("float", "negzero") and not floaty:
+            return False
     for h in c.get("hubs", {}).values():
         nums.extend(dec(x) for x in h["data"] if not isinstance(x, (list, dict)) and x is not None)
+    ctl_used = set()
+    has_ctl = [False] * nm
     for op in c["ops"]:
+        if op["op"] == "ctlset":
+            if op.get("ctl") not in c.get("ctls", {}):
+                return False
+            if op["v"] is not None and not isinstance(op["v"], list):
+                nums.append(dec(op["v"]))
+            continue
         i = op.get("m", 0)
         if not (0 <= i < nm) or closed[i]:
             return False
+        if op["op"] == "add" and "ctl" in op:      # a ControlStream as the event: once (its generator is one object)
+            if op["ctl"] not in c.get("ctls", {}) or op["ctl"] in ctl_used or dec(op["delta"]) < 0:
+                return False
+            ctl_used.add(op["ctl"])
+            has_ctl[i] = True
+            d = dec(op["delta"])
+            if abs(d) >= 2 ** 20 or 64 % d.denominator != 0:
+                return False
+            continue
         if op["op"] in ("add", "addfail"):
             d = dec(op["delta"])
             if abs(d) >= 2 ** 20 or 64 % d.denominator != 0:     # the frame's count is a float: keep it exact
@@ -147,7 +169,7 @@ def valid(c):
         if op["op"] == "add":
             if "from" in op:
                 j = op["from"]
-                if not (0 <= j < nm) or j == i or closed[j] or keep[j]:
+                if not (0 <= j < nm) or j == i or closed[j] or keep[j] or has_ctl[j]:
                     return False
                 if d >= 0:
                     closed[j] = True
@@ -237,17 +259,49 @@ def impl(c):
         return _impl(c)
 
 
+class _Timeout(Exception):
+    pass
+
+
+def _alarm(signum, frame):
+    raise _Timeout()
+
+
+def _guarded_add(smix, d, data, kw):
+    """an endless event: an `add` that tried to run through it would never come back"""
+    import signal
+    old = signal.signal(signal.SIGALRM, _alarm)
+    signal.setitimer(signal.ITIMER_REAL, 0.5)
+    try:
+        return _call_add(smix, d, data, kw)
+    finally:
+        signal.setitimer(signal.ITIMER_REAL, 0)
+        signal.signal(signal.SIGALRM, old)
+
+
 def _impl(c):
-    from audiolazy import thub
+    from audiolazy import thub, ControlStream
+    ctls = dict((k, ControlStream(value(v["init"], v.get("vk", "int")))) for k, v in c.get("ctls", {}).items())
     hubs = dict((k, thub([value(x, h.get("vk", "int")) for x in h["data"]], h["n"]))
                 for k, h in c.get("hubs", {}).items())
     mixers = [_make(m) for m in c["mixers"]]
     its = [iter(s) for s in mixers]
     steps = [[] for _ in mixers]
     for op in c["ops"]:
+        if op["op"] == "ctlset":
+            ctls[op["ctl"]].value = value(op["v"], op.get("vk", "int"))
+            continue
         i = op.get("m", 0)
         smix, it = mixers[i], its[i]
-        if op["op"] in ("add", "addfail"):
+        if op["op"] == "add" and "ctl" in op:
+            try:
+                r = _guarded_add(smix, num(op["delta"], op.get("dk", "int")), ctls[op["ctl"]], op.get("kw", "pos"))
+                o = "ok" if r is None else {"err": "OTHER:add returned %r" % (r,)}
+            except _Timeout:
+                o = {"err": "OTHER:add of an endless event does not return"}
+            except Exception as e:
+                o = {"err": err_kind(e)}
+        elif op["op"] in ("add", "addfail"):
             d = num(op["delta"], op.get("dk", "int"))
             if op["op"] == "addfail":
                 how = op["how"]
@@ -316,9 +370,47 @@ def _model_op(op, subs, c):
     return {"op": "next"}
 
 
+def _ctl_items(c, g0):
+    """A ControlStream added as an event (operation number g0 of the case) yields, at every sample, the
+    value it has when that sample is read.  For the model the event is the finite list of these values
+    for the reads of the history: item j is read by the (start+j+1)-th `next` of that mixer, with
+    start = max(ceil(T - 1/2), samples delivered before the add) — the spec's start formula."""
+    import math
+    op0 = c["ops"][g0]
+    i = op0["m"]
+    T = Fraction(0)
+    n = 0
+    for op in c["ops"][:g0]:
+        if op.get("m") != i or op["op"] == "ctlset":
+            continue
+        if op["op"] == "add" and dec(op["delta"]) >= 0:
+            T += dec(op["delta"])
+        elif op["op"] == "next":
+            n += 1
+    T += dec(op0["delta"])
+    start = max(math.ceil(T - Fraction(1, 2)), n)
+    cur = c["ctls"][op0["ctl"]]["init"]
+    items = []
+    k = 0
+    for g, op in enumerate(c["ops"]):
+        if op["op"] == "ctlset":
+            if op["ctl"] == op0["ctl"]:
+                cur = op["v"]
+        elif op.get("m") == i and op["op"] == "next":
+            if k >= start and g > g0:
+                items.append(cur)
+            k += 1
+    return items
+
+
 def sub_histories(c):
     subs = [[] for _ in c["mixers"]]
-    for op in c["ops"]:
+    for g, op in enumerate(c["ops"]):
+        if op["op"] == "ctlset":
+            continue
+        if op["op"] == "add" and "ctl" in op:
+            subs[op["m"]].append({"op": "add", "delta": op["delta"], "data": _ctl_items(c, g)})
+            continue
         subs[op.get("m", 0)].append(_model_op(op, subs, c))
     return subs
 
@@ -380,7 +472,7 @@ def first_diffs(c, io, drv):
 def _op_of(c, i, k):
     n = -1
     for op in c["ops"]:
-        if op.get("m", 0) == i:
+        if op["op"] != "ctlset" and op.get("m", 0) == i:
             n += 1
             if n == k:
                 return op
@@ -422,7 +514,7 @@ def compare(c, io, drv):
         T = Fraction(0)
         n = -1
         for op in c["ops"]:
-            if op.get("m", 0) != i:
+            if op["op"] == "ctlset" or op.get("m", 0) != i:
                 continue
             n += 1
             if op["op"] in ("add", "addfail") and n < len(steps) and steps[n][0] == "ok":
@@ -542,12 +634,12 @@ def _drain(c, i):
         for op in ops:
             if op["op"] == "add" and dec(op["delta"]) >= 0:
                 T += dec(op["delta"])
-                ln = len(op["data"]) if "data" in op else length(mixers_ops[op["from"]], mixers_ops)
+                ln = len(op["data"]) if "data" in op else (3 if "ctl" in op else length(mixers_ops[op["from"]], mixers_ops))
                 last = max(last, max(int(T) + 1, n) + ln)
             elif op["op"] == "next":
                 n += 1
         return last
-    per = [[op for op in c["ops"] if op.get("m", 0) == j] for j in range(len(c["mixers"]))]
+    per = [[op for op in c["ops"] if op["op"] != "ctlset" and op.get("m", 0) == j] for j in range(len(c["mixers"]))]
     n = sum(1 for op in per[i] if op["op"] == "next")
     return max(0, length(per[i], per) - n) + 2
 
@@ -576,7 +668,13 @@ def random_case(rng, big=False, nm=None):
         vk = g.vk()
         hubs["h%d" % h] = {"data": g.items(rng.choice([0, 1, 2, 3, 5]), vk), "vk": vk, "n": rng.choice([1, 2, 2, 3])}
     left = dict((k, h["n"]) for k, h in hubs.items())
-    c = {"entry": "streamix_sys", "family": g.family, "mixers": mixers, "hubs": hubs, "ops": []}
+    ctls = {}
+    if g.family != "tuple" and rng.random() < 0.2:
+        vk = g.vk()
+        ctls["c0"] = {"init": g.items(1, vk)[0], "vk": vk}
+    ctl_free = set(ctls)
+    has_ctl = [False] * nm
+    c = {"entry": "streamix_sys", "family": g.family, "mixers": mixers, "hubs": hubs, "ctls": ctls, "ops": []}
     ops = c["ops"]
     closed = [False] * nm
     keep = [m["keep"] for m in mixers]
@@ -594,6 +692,17 @@ def random_case(rng, big=False, nm=None):
             continue
         r = rng.random()
         d, dk = _rand_delta(rng)
+        if ctls and rng.random() < 0.25:                     # the ControlStream: assign it / add it as an event
+            k = "c0"
+            if k in ctl_free and rng.random() < 0.4:
+                ctl_free.discard(k)
+                has_ctl[i] = True
+                ops.append({"m": i, "op": "add", "delta": enc(min(d, Fraction(6))), "dk": dk if d <= 6 else "float",
+                            "ctl": k, "kw": kw})
+            else:
+                v = None if rng.random() < 0.06 else g.items(1, ctls[k]["vk"])[0]
+                ops.append({"op": "ctlset", "ctl": k, "v": v, "vk": ctls[k]["vk"]})
+            continue
         if r < p_fail:                                       # an add whose iter(data) raises
             hows = ["none", "int", "float", "iterraise"] + [("hub", k) for k, n in left.items() if n == 0] * 3
             how = rng.choice(hows)
@@ -620,7 +729,7 @@ def random_case(rng, big=False, nm=None):
                         "kv": rng.choice(["bool", "int", "str", "list"] + ([] if v else ["none"]))})
             keep[i] = v
         elif r < p_fail + 0.16 and nm > 1:                   # a whole mixer as the data of another one
-            cand = [j for j in live if j != i and not keep[j] and any(o.get("m") == j for o in ops)]
+            cand = [j for j in live if j != i and not keep[j] and not has_ctl[j] and any(o.get("m") == j for o in ops)]
             if cand:
                 j = rng.choice(cand)
                 ops.append({"m": i, "op": "add", "delta": enc(d), "dk": dk, "from": j, "kw": kw})
@@ -647,7 +756,10 @@ def random_case(rng, big=False, nm=None):
     # drain every mixer that is still open; a little more for a kept one
     for i in range(nm):
         if not closed[i] and rng.random() < 0.85:
-            ops.extend([{"m": i, "op": "next"}] * (_drain(c, i) + rng.choice([0, 0, 1, 3])))
+            for _ in range(_drain(c, i) + rng.choice([0, 0, 1, 3])):
+                ops.append({"m": i, "op": "next"})
+                if has_ctl[i] and rng.random() < 0.3:       # the value assigned between two reads
+                    ops.append({"op": "ctlset", "ctl": "c0", "v": g.items(1, ctls["c0"]["vk"])[0], "vk": ctls["c0"]["vk"]})
     # life after the end / after a raise: more adds (good and failing) and nexts
     if rng.random() < 0.3:
         i = rng.choice(range(nm))
@@ -718,6 +830,9 @@ def tally(eng, c, io):
     fails_then_good = False
     failed = [False] * len(c["mixers"])
     for op in c["ops"]:
+        if op["op"] == "ctlset":
+            eng.count("sys_branch", "ControlStream.value:=" + ("None" if op["v"] is None else "number"))
+            continue
         i = op.get("m", 0)
         st = io["mixers"][i][pos[i]]
         pos[i] += 1
@@ -730,7 +845,7 @@ def tally(eng, c, io):
             if isinstance(o, dict) and o.get("err") != "ValueError":
                 failed[i] = True
         elif op["op"] == "add":
-            src = "mixer" if "from" in op else ("hub" if "hub" in op else op.get("c", "list"))
+            src = "mixer" if "from" in op else ("hub" if "hub" in op else ("ControlStream" if "ctl" in op else op.get("c", "list")))
             eng.count("sys_data_kind", src)
             eng.count("sys_delta_kind", op.get("dk", "int"))
             eng.count("sys_add_call", op.get("kw", "pos"))
